@@ -6,6 +6,7 @@ import (
 	vestingtypes "github.com/haqq-network/haqq/x/vesting/types"
 	"math/big"
 	"math/rand"
+	"os"
 	"strings"
 
 	sdkmath "cosmossdk.io/math"
@@ -38,6 +39,7 @@ import (
 type c03Env struct {
 	lastEth       map[int][]byte
 	lastEthNonces map[int]string
+	lastEthMsgs   map[int][]*evmtypes.MsgEthereumTx // the messages of the last accepted Ethereum-route transaction, one by one
 	lastCos       map[string][]byte
 	lastCosSeq    map[string]uint64
 	// the checks' own record of the sequence numbers under which each key's transactions have been executed
@@ -45,7 +47,7 @@ type c03Env struct {
 	used map[int]map[uint64]bool
 }
 
-var c03State = &c03Env{lastEth: map[int][]byte{}, lastEthNonces: map[int]string{}, lastCos: map[string][]byte{}, lastCosSeq: map[string]uint64{}, used: map[int]map[uint64]bool{}}
+var c03State = &c03Env{lastEthMsgs: map[int][]*evmtypes.MsgEthereumTx{}, lastEth: map[int][]byte{}, lastEthNonces: map[int]string{}, lastCos: map[string][]byte{}, lastCosSeq: map[string]uint64{}, used: map[int]map[uint64]bool{}}
 
 // c03Use records that key k executed a transaction under the sequence number n; false if n was used before.
 func c03Use(k int, n uint64) bool {
@@ -57,6 +59,29 @@ func c03Use(k int, n uint64) bool {
 	}
 	c03State.used[k][n] = true
 	return true
+}
+
+var c03Fresh int
+
+// c03RegisteredCoin registers the coin "atokc" with the ERC20 module (once per process) and gives `to` some of it.
+func c03RegisteredCoin(to sdk.AccAddress) {
+	nw, _ := fixture()
+	app := nw.App
+	ctx := nw.GetContext()
+	coins := sdk.NewCoins(sdk.NewCoin("atokc", sdkmath.NewInt(1_000)))
+	if err := app.BankKeeper.MintCoins(ctx, "coinomics", coins); err != nil {
+		panic(err)
+	}
+	if err := app.BankKeeper.SendCoinsFromModuleToAccount(ctx, "coinomics", to, coins); err != nil {
+		panic(err)
+	}
+	if _, found := app.Erc20Keeper.GetTokenPair(ctx, app.Erc20Keeper.GetTokenPairID(ctx, "atokc")); !found {
+		md := banktypes.Metadata{Description: "c03", Base: "atokc", Display: "tokc", Name: "atokc", Symbol: "TOKC",
+			DenomUnits: []*banktypes.DenomUnit{{Denom: "atokc", Exponent: 0}, {Denom: "tokc", Exponent: 18}}}
+		if _, err := app.Erc20Keeper.RegisterCoin(ctx, md); err != nil {
+			panic(err)
+		}
+	}
 }
 
 func c03Gen(r *rand.Rand, tier string) []Case {
@@ -79,6 +104,14 @@ func c03Gen(r *rand.Rand, tier string) []Case {
 	out = append(out, Case{"eth ? ? # k=2 offs=0 type=legacy", "cos ? ? ? ? # k=2 signseq=0 chain=ok mutate=none", "eth ? ? # k=2 offs=0,1 type=dynamic",
 		"eth ? ? # k=2 replay=1", "cos ? ? ? ? # k=2 replay=1", "vconv # k=2", "eth ? ? # k=2 replay=1", "cos ? ? ? ? # k=2 replay=1",
 		"eth ? ? # k=2 offs=0 type=access", "eth ? ? # k=2 replay=1", "ethfrom # k=1 v=2", "ethfrom # k=3 v=1", "eth ? ? # k=1 offs=0 type=legacy"})
+	// fixed case: an account that has sent transactions sends a coin with a registered ERC20 pair to an address without an
+	// account; what it signed before is delivered again afterwards
+	out = append(out, Case{"eth ? ? # k=2 offs=0 type=legacy", "eth ? ? # k=2 offs=0 type=dynamic", "cos ? ? ? ? # k=2 signseq=0 chain=ok mutate=none coin=reg",
+		"eth ? ? # k=2 replay=1", "cos ? ? ? ? # k=2 replay=1", "eth ? ? # k=2 offs=0 type=legacy", "e712 ? ? ? ? # k=2 signseq=0 chain=ok mutate=none coin=reg", "eth ? ? # k=2 replay=1"})
+	// fixed case: transactions whose first message deploys a contract, alone and followed by further messages; afterwards
+	// the last message is delivered once more on its own
+	out = append(out, Case{"eth ? ? # k=3 offs=0 type=legacy create=1", "eth ? ? # k=3 replay=tail", "eth ? ? # k=3 offs=0,1 type=legacy create=1", "eth ? ? # k=3 replay=tail",
+		"eth ? ? # k=3 offs=0,1,2 type=dynamic create=1", "eth ? ? # k=3 replay=tail", "eth ? ? # k=3 offs=0 type=legacy", "eth ? ? # k=3 replay=1"})
 	for i := 0; i < n; i++ {
 		var c Case
 		for j := 0; j < 6+r.Intn(10); j++ {
@@ -86,7 +119,14 @@ func c03Gen(r *rand.Rand, tier string) []Case {
 			switch x := r.Intn(20); {
 			case x < 5:
 				offs := pick(r, []string{"0", "0", "0,1", "0,1,2", "0,0", "1", "0,2", "1,0", "0,1,1", "0,0,0"})
-				c = append(c, fmt.Sprintf("eth ? ? # k=%d offs=%s type=%s", k, offs, pick(r, []string{"legacy", "access", "dynamic"})))
+				cr := ""
+				if r.Intn(4) == 0 {
+					cr = " create=1"
+				}
+				c = append(c, fmt.Sprintf("eth ? ? # k=%d offs=%s type=%s%s", k, offs, pick(r, []string{"legacy", "access", "dynamic"}), cr))
+				if r.Intn(3) == 0 {
+					c = append(c, fmt.Sprintf("eth ? ? # k=%d replay=tail", k))
+				}
 			case x < 7:
 				c = append(c, fmt.Sprintf("eth ? ? # k=%d replay=1", k))
 			case x < 11:
@@ -100,7 +140,11 @@ func c03Gen(r *rand.Rand, tier string) []Case {
 				if route != "cos" {
 					seq = "0"
 				}
-				c = append(c, fmt.Sprintf("%s ? ? ? ? # k=%d signseq=%s chain=%s mutate=%s", route, k, seq, chain, mut))
+				reg := ""
+				if mut == "none" && r.Intn(4) == 0 {
+					reg = " coin=reg"
+				}
+				c = append(c, fmt.Sprintf("%s ? ? ? ? # k=%d signseq=%s chain=%s mutate=%s%s", route, k, seq, chain, mut, reg))
 			default:
 				c = append(c, fmt.Sprintf("%s ? ? ? ? # k=%d replay=1", pick(r, []string{"cos", "e712"}), k))
 			}
@@ -182,7 +226,19 @@ func c03Exec(c Case) (outs []string, fails []Failure, tags []string) {
 			switch f[0] {
 			case "eth":
 				var res abci.ResponseDeliverTx
-				if kv["replay"] == "1" {
+				if kv["replay"] == "tail" {
+					// the last message of the last accepted transaction, delivered again in a transaction of its own
+					ms := c03State.lastEthMsgs[k]
+					if len(ms) == 0 {
+						c[i] = "mut # skipped-replay"
+						out = "not-for-signer"
+						return
+					}
+					last := ms[len(ms)-1]
+					f[1], f[2] = fmt.Sprint(seq), fmt.Sprint(last.AsTransaction().Nonce())
+					res, _ = deliver(wrapEth(last))
+					tags = append(tags, "eth-replay-of-one-message")
+				} else if kv["replay"] == "1" {
 					bz, ok := c03State.lastEth[k]
 					if !ok {
 						out = "skip"
@@ -199,13 +255,21 @@ func c03Exec(c Case) (outs []string, fails []Failure, tags []string) {
 					for _, o := range strings.Split(kv["offs"], ",") {
 						nonce := seq + uint64(vmIdx(o))
 						ns = append(ns, fmt.Sprint(nonce))
-						msgs = append(msgs, signEth(k, ethArgs(kv["type"], nonce, common.BytesToAddress(testAddr(640+i%8))), chainID))
+						a := ethArgs(kv["type"], nonce, common.BytesToAddress(testAddr(640+i%8)))
+						if kv["create"] == "1" && len(msgs) == 0 {
+							// the first message of the transaction deploys a contract (runtime code: a single STOP)
+							a.To, a.Amount, a.Input, a.GasLimit = nil, nil, common.FromHex("0x600160005360016000f3"), 120_000
+						}
+						msgs = append(msgs, signEth(k, a, chainID))
 					}
 					f[1], f[2] = fmt.Sprint(seq), strings.Join(ns, ",")
 					var bz []byte
 					res, bz = deliver(wrapEth(msgs...))
 					if res.Code == 0 {
-						c03State.lastEth[k], c03State.lastEthNonces[k] = bz, f[2]
+						c03State.lastEth[k], c03State.lastEthNonces[k], c03State.lastEthMsgs[k] = bz, f[2], msgs
+					}
+					if kv["create"] == "1" {
+						tags = append(tags, "eth-batch-starting-with-a-deployment")
 					}
 					tags = append(tags, "eth-batch-"+fmt.Sprint(len(msgs)))
 				}
@@ -217,6 +281,13 @@ func c03Exec(c Case) (outs []string, fails []Failure, tags []string) {
 					for _, ns := range strings.Split(f[2], ",") {
 						if n := mustBig(ns).Uint64(); !c03Use(k, n) {
 							fl("C03:sequence-number-executed-twice", fmt.Sprintf("key %d: an Ethereum message with nonce %d was executed although a transaction of this key had already been executed under that number", k, n))
+						}
+					}
+					// every executed nonce lies behind the account's sequence afterwards (otherwise the message is valid again)
+					for _, ns := range strings.Split(f[2], ",") {
+						if n := mustBig(ns).Uint64(); now <= n {
+							fl("C03:sequence-left-at-an-executed-nonce", fmt.Sprintf("key %d: the transaction with the nonces %s was executed and the account's sequence is %d afterwards: the message with nonce %d can be executed again", k, f[2], now, n))
+							break
 						}
 					}
 					// the property's own predicate: every executed message carried the account's sequence at its turn
@@ -250,7 +321,20 @@ func c03Exec(c Case) (outs []string, fails []Failure, tags []string) {
 					tags = append(tags, route+"-replay")
 				} else {
 					msg := banktypes.NewMsgSend(key.AccAddr, to, sdk.NewCoins(sdk.NewCoin(denom, sdkmath.NewInt(7))))
+					if kv["coin"] == "reg" {
+						// a coin with a registered ERC20 pair (Haqq's bank wrapper takes its ERC20-aware path), sent to an address
+						// that has no account yet
+						c03RegisteredCoin(key.AccAddr)
+						c03Fresh++
+						msg = banktypes.NewMsgSend(key.AccAddr, testAddr(20_000+c03Fresh), sdk.NewCoins(sdk.NewCoin("atokc", sdkmath.NewInt(5))))
+						tags = append(tags, "send-of-registered-coin-to-new-address")
+					}
 					fees := sdk.NewCoins(sdk.NewCoin(denom, sdkmath.NewInt(400_000_000_000_000)))
+					gasLimit := uint64(200_000)
+					if kv["coin"] == "reg" {
+						// (the ERC20-aware send reads the token pair and the contract: more gas, at the same price)
+						gasLimit, fees = 10_000_000, sdk.NewCoins(sdk.NewCoin(denom, sdkmath.NewInt(20_000_000_000_000_000)))
+					}
 					signChain := cosmosChainID
 					if kv["chain"] == "other" {
 						signChain = "haqq_54211-3"
@@ -267,7 +351,7 @@ func c03Exec(c Case) (outs []string, fails []Failure, tags []string) {
 						}
 						builder = txCfg.NewTxBuilder()
 						_ = builder.SetMsgs(msg)
-						builder.SetGasLimit(200_000)
+						builder.SetGasLimit(gasLimit)
 						builder.SetFeeAmount(fees)
 						accNum := app.AccountKeeper.GetAccount(nw.GetContext(), key.AccAddr).GetAccountNumber()
 						sig := signing.SignatureV2{PubKey: key.Priv.PubKey(), Data: &signing.SingleSignatureData{SignMode: signing.SignMode_SIGN_MODE_DIRECT}, Sequence: txSeq}
@@ -282,7 +366,7 @@ func c03Exec(c Case) (outs []string, fails []Failure, tags []string) {
 						txSeq = seq
 						var err error
 						builder, err = utiltx.PrepareEIP712CosmosTx(nw.GetContext(), app, utiltx.EIP712TxArgs{
-							CosmosTxArgs:       utiltx.CosmosTxArgs{TxCfg: txCfg, Priv: key.Priv, ChainID: signChain, Gas: 200_000, Fees: fees, Msgs: []sdk.Msg{msg}},
+							CosmosTxArgs:       utiltx.CosmosTxArgs{TxCfg: txCfg, Priv: key.Priv, ChainID: signChain, Gas: gasLimit, Fees: fees, Msgs: []sdk.Msg{msg}},
 							UseLegacyExtension: route == "e712l", UseLegacyTypedData: route == "e712l"})
 						if err != nil {
 							panic(err)
@@ -346,6 +430,9 @@ func c03Exec(c Case) (outs []string, fails []Failure, tags []string) {
 						fl("C03:tampered-or-foreign-cosmos-tx-accepted:"+route, "a Cosmos transaction whose content was changed after signing (or that was signed for another chain id) was executed: "+line)
 					}
 				} else {
+					if os.Getenv("VERIF_DEBUG") != "" {
+						fmt.Fprintln(os.Stderr, "C03 cos rejected:", res.Code, res.Log)
+					}
 					out = fmt.Sprintf("reject %d", now)
 					tags = append(tags, route+"-reject")
 					if !balOf(k).Equal(b0) || now != seq {
